@@ -87,8 +87,8 @@ def check_summary(case, obj, counters):
                 known = [m for m in known if m != obj.str_nan]
             flat = [c for cs in contents for c in cs]
             flat_cmp = [c for c in flat if not (not dropna and c == obj.str_nan)]
-            if sorted(flat_cmp) != sorted(known):
-                missing = sorted(set(known) - set(flat_cmp))[:4]
+            if sorted(flat_cmp, key=repr) != sorted(known, key=repr):
+                missing = sorted(set(known) - set(flat_cmp), key=repr)[:4]
                 extra = sorted(set(flat_cmp) - set(known), key=repr)[:4]
                 dup = sorted({c for c in flat_cmp if flat_cmp.count(c) > 1}, key=repr)[:4]
                 probs.append(f"{f}: summary contents do not partition the known values (missing {missing}, unknown {extra}, duplicated {dup})")
